@@ -122,6 +122,18 @@ def random_geom(rng, max_src=40, tie_prone=None):
     return Geom(ref_res, ratio, x0, y0, ref_shape, off, sh)
 
 
+def aligned_geom(rng, max_src=40):
+    """Dyadic geometry (ratio 1/2/4, resolutions 0.5/1/2, small origins, offsets in whole or half reference pixels):
+    every coordinate and every area weight GDAL computes is exact, so results cannot carry block-origin float noise."""
+    ratio = rng.choice([1, 2, 2, 4])
+    ref_res = rng.choice([0.5, 1.0, 2.0])
+    x0, y0 = rng.choice([(0.0, 0.0), (4.0, 100.0), (-64.0, 32.0)])
+    off = (rng.randint(1, 5) + rng.choice([0, 0, .5]), rng.randint(1, 5) + rng.choice([0, 0, .5]))
+    sh = (rng.randint(8, max_src), rng.randint(8, max_src))
+    ref_shape = (int(math.ceil(off[0] + sh[0] / ratio)) + rng.randint(2, 5), int(math.ceil(off[1] + sh[1] / ratio)) + rng.randint(2, 5))
+    return Geom(ref_res, ratio, x0, y0, ref_shape, off, sh)
+
+
 def ramp(shape, rng, lo=10, hi=200, bands=1):
     """Textured integer-valued data (not a pure ramp so that shifts are visible)."""
     h, w = shape
